@@ -181,6 +181,12 @@ class World:
         self.expected.append(expected)
 
     # ---------------- mutators (the application's writes into handed-out objects); n selects the value
+    @staticmethod
+    def dec(n):
+        """decimal values in the forms applications produce: integers, fractions, trailing zeros, tiny and negative values"""
+        return [Decimal(n), Decimal(n) / 1000, Decimal(f'{n % 97 + 1}E-9'), Decimal(f'{n % 90 + 10}0.0'), Decimal(f'-{n % 50 + 1}E-7'),
+                Decimal(f'{n}.500'), Decimal(n * 1000)][n % 7]
+
     def mutate_state(self, st, n):
         k = kind_of(st)
         pm = self.mdib.data_model.pm_types
@@ -188,13 +194,13 @@ class World:
             if st.MetricValue is None:
                 st.mk_metric_value()
             if hasattr(st.MetricValue, 'Value') and st.NODETYPE.localname == 'NumericMetricState':
-                st.MetricValue.Value = Decimal(n)
+                st.MetricValue.Value = self.dec(n)
             else:
                 st.MetricValue.Value = f'v{n}'
         elif k == 'rt':
             if st.MetricValue is None:
                 st.mk_metric_value()
-            st.MetricValue.Samples = [Decimal(n), Decimal(n + 1)]
+            st.MetricValue.Samples = [self.dec(n), self.dec(n + 1), self.dec(n + 2)]
         elif k == 'alert':
             vals = list(pm.AlertActivation)
             st.ActivationState = vals[n % len(vals)]
